@@ -1,7 +1,7 @@
 (* Model of exp/visitor.go, exp/reflects.go, exp/scope.go: a tree-walking evaluator in an error
    monad (first error wins, nothing is evaluated after it) that also logs user-function calls.
    User functions and method tables are oracles (Section variables). *)
-From Tpl Require Export Exp.Parse Exp.Lit.
+From Tpl Require Export Exp.Parse Exp.Lit Exp.FloatFmt.
 Open Scope N_scope.
 
 Inductive fres := FOk (v : value) | FErrS (sentinel : N) | FPanic | FUnmodelled | FBadSecond | FBadCount
@@ -23,6 +23,7 @@ Fixpoint fmt_v (v : value) : option str :=
   | VBool true => Some [116;114;117;101]
   | VBool false => Some [102;97;108;115;101]
   | VInt _ z => Some (str_of_Z z)
+  | VFloat false b => fmt_float b      (* float64: shortest round-trip decimal; float32 values stay unmodelled *)
   | VStr s => Some s
   | VSeq _ l _ =>
     (fix go (l : list value) (acc : list str) : option str :=
